@@ -92,6 +92,16 @@ func st(full bool, hosts map[string]H, backs map[string]B, def string, dirty ...
 	return cfgsm.Step{Full: full, State: s, Dirty: dirty}
 }
 
+func respSteps() []cfgsm.Step {
+	var out []cfgsm.Step
+	for _, r := range []int{0, 1, 2, 2, 3, 0} {
+		s := st(true, map[string]H{"h0": {Paths: []P{{Path: "/", Backend: "b0"}}}}, map[string]B{"b0": {Eps: []int{1}}}, "")
+		s.State.Resp = r
+		out = append(out, s)
+	}
+	return out
+}
+
 // aclPaths: two paths with distinct per path configuration, so the backend needs idpath maps
 func aclPaths(b string) []P {
 	return []P{{Path: "/", Backend: b}, {Path: "/a", Backend: b, SSLRedirect: true}}
@@ -184,6 +194,9 @@ func corpus() []History {
 			st(true, map[string]H{"h1": {Paths: aclPaths("b1"), Alias: "h0"}}, twoB, ""),
 			st(false, map[string]H{"h0": {Paths: []P{{Path: "/", Backend: "b0"}}}, "h1": {Paths: aclPaths("b1"), Alias: "h0"}}, twoB, ""),
 			st(false, map[string]H{"h1": {Paths: aclPaths("b1"), Alias: "h0"}}, twoB, "")}},
+		// the custom responses of the global config appear, change (one write fails in between), lose
+		// one file and go away: errorfiles/<code>.http follow after every successful update
+		{Shards: 3, Steps: respSteps(), Faults: [][]string{nil, nil, {"resp"}, nil, nil, nil}},
 		// identical re-creation of an acl backend; revert within one batch
 		{Shards: 3, Steps: []cfgsm.Step{
 			st(true, map[string]H{"h0": {Paths: []P{{Path: "/", Backend: "b0"}, {Path: "/a", Backend: "b0", SSLRedirect: true}}}}, oneB, ""),
@@ -283,6 +296,9 @@ func oracle(step cfgsm.Step, o stepObs, fresh cfgsm.Disk) (string, string) {
 	if o.Disk.MainRest != fresh.MainRest {
 		return "main-stale", "main file differs from a fresh rendering: " + firstDiff(o.Disk.MainRest, fresh.MainRest)
 	}
+	if fmt.Sprint(o.Disk.ErrorFiles) != fmt.Sprint(fresh.ErrorFiles) {
+		return "error-file-stale", fmt.Sprintf("custom response files %q, a fresh instance writes %q", o.Disk.ErrorFiles, fresh.ErrorFiles)
+	}
 	for _, k := range cfgsm.SortedKeys(fresh.MapFiles) {
 		if fmt.Sprint(o.Disk.MapFiles[k]) != fmt.Sprint(fresh.MapFiles[k]) {
 			return "map-file-stale", fmt.Sprintf("%s holds %v, a fresh instance writes %v", k, o.Disk.MapFiles[k], fresh.MapFiles[k])
@@ -332,7 +348,10 @@ func runHistory(base string, h History, withFresh bool) runResult {
 		h.Steps[i] = step
 		ops := e.Sync(step)
 		q := e.Queue.Adds
-		faults := h.faultsOf(i)
+		faults := cfgsm.EffectiveFaults(h.faultsOf(i), step.State)
+		if i < len(h.Faults) {
+			h.Faults[i] = faults
+		}
 		unblock := e.Block(faults, allBacks, allPorts)
 		e.Stamp()
 		err := e.Update()
